@@ -17,7 +17,7 @@ V = "/verif"
 SEEDS = os.path.join(V, "seeded")
 SCRATCH = "/tmp/seedval"
 EXTRA = {  # other checks that are expected to see the same change
-    "C07-or-tail-raw-copy": ["C09"], "C07-or-gallop-nth": ["C08", "C09", "C15"], "C15-is-in-branch-free": ["C07", "C08"], "C02-ij2h-midword-xor-swap": ["C18", "C01"], "C05-table-entry-23": ["C16", "C13"], "C02-hash-last-layer-cache": ["C01", "C03", "C19"], "C04-neighbour-decode-memo-race": ["C14"], "C05-start-cells-global-cache": ["C06", "C13"], "C15-pack-pass-budget": ["C07", "C08", "C09"], "C09-or-disjoint-fastpath": ["C07", "C08", "C15"], "C15-pack-tail": ["C07"], "C19-dxdy-before-clamp": ["C03"], "C17-pm1-offset-turns": ["C11"], "C01-neg-lon-turns": ["C02", "C05"],
+    "C07-or-tail-raw-copy": ["C09"], "C07-or-gallop-nth": ["C08", "C09", "C15"], "C09-fixed-depth-dd-clamp": ["C15"], "C06-c2v-table-clamped": ["C05"], "C05-npc-helper-radius-arg": ["C06", "C16"], "C03-eqr-clamp-dropped": ["C01", "C02"], "C15-is-in-branch-free": ["C07", "C08"], "C02-ij2h-midword-xor-swap": ["C18", "C01"], "C05-table-entry-23": ["C16", "C13"], "C02-hash-last-layer-cache": ["C01", "C03", "C19"], "C04-neighbour-decode-memo-race": ["C14"], "C05-start-cells-global-cache": ["C06", "C13"], "C15-pack-pass-budget": ["C07", "C08", "C09"], "C09-or-disjoint-fastpath": ["C07", "C08", "C15"], "C15-pack-tail": ["C07"], "C19-dxdy-before-clamp": ["C03"], "C17-pm1-offset-turns": ["C11"], "C01-neg-lon-turns": ["C02", "C05"],
     "C06-pack-tail": ["C07", "C09"], "C07-pack-tail": ["C06", "C09"], "C09-dedup-before-sort": ["C15"],
     "C15-drain-fastpath": ["C09"], "C05-with-radius-dispatch-smallcone": ["C16"], "C16-with-radius-dispatch": ["C05"],
     "C01-mask-clamp": ["C02", "C03"], "C02-eps-before-trunc": ["C01"], "C03-npc-sqrt-cancel": ["C01", "C02"],
